@@ -112,11 +112,36 @@ def events_for_class(c: dict, pairs: list, ident: int, desc: dict) -> tuple:
             ident += 1
             evs.append(ev_cmp(ident, c, cls, a_obj, a_obj, a, a, 'same', True))
             desc[ident] = (f'identical object {a}', c)
+    # relations through inheritance: sibling subclasses of one (parameterized) base, a subclass against its base,
+    # a generic subclass with and without parameters
+    try:
+        S1 = types.new_class('VS1', (G_int,), {}, lambda ns: None)
+        S2 = types.new_class('VS2', (G_int,), {}, lambda ns: None)
+        inh = [('siblings', S1, S2), ('sub-vs-base', S1, G_int)]
+        if c['gen'] == 'T':
+            U = t.TypeVar('U')
+            P = types.new_class('VP', (cls[U], t.Generic[U]), {}, lambda ns: None)
+            inh.append(('subclass-params', P[int], P[t.Any]))
+            inh.append(('subclass-params', P[int], P))
+        sub_out = 'ok'
+    except Exception as e:  # noqa
+        inh, sub_out = [], type(e).__name__
+    ident += 1
+    evs.append({'id': ident, 'op': 'defsub', 'cls': c, 'out': sub_out})
+    desc[ident] = ('subclass creation', c)
+    for rel, ca, cb in inh:
+        for (a, b) in pairs[:4] + [p for p in pairs if p[0] == p[1]][:2]:
+            a_obj, b_obj = inst(ca, a), inst(cb, b, 'unchecked' if cb is not ca and rel == 'subclass-params' and cb.__dict__.get('__origin__') is None else 'ctor')
+            ident += 1
+            evs.append({'id': ident, 'op': 'cmpinh', 'cls': c, 'a': a, 'b': b, 'rel': rel,
+                        'eq': _b(lambda: a_obj == b_obj), 'ne': _b(lambda: a_obj != b_obj), 'qe': _b(lambda: b_obj == a_obj)})
+            desc[ident] = (f'{rel}: {a} vs {b}', c)
     # assignment / deletion
     n = len(c['fl'])
     for fi in range(n):
         x = G_int(**{NAMES[0]: 1})
         before = sorted(x.__pane_set__)
+        _h(x)                       # (hashed once before the assignment: the hash must follow the fields)
         try:
             setattr(x, NAMES[fi], 2)
             o = 'ok'
@@ -125,9 +150,15 @@ def events_for_class(c: dict, pairs: list, ident: int, desc: dict) -> tuple:
         except Exception as e:  # noqa
             o = type(e).__name__
         ident += 1
-        evs.append({'id': ident, 'op': 'mutate', 'cls': c, 'what': 'set', 'field': NAMES[fi], 'out': o,
-                    'set_before': before, 'set_after': sorted(x.__pane_set__),
-                    'stored': 'T' if getattr(x, NAMES[fi]) == 2 else 'F'})
+        ev = {'id': ident, 'op': 'mutate', 'cls': c, 'what': 'set', 'field': NAMES[fi], 'out': o,
+              'set_before': before, 'set_after': sorted(x.__pane_set__),
+              'stored': 'T' if getattr(x, NAMES[fi]) == 2 else 'F', 'eq_after': 'na', 'heq_after': 'na'}
+        if o == 'ok':
+            y = inst(G_int, [getattr(x, NAMES[i]) for i in range(n)], 'unchecked')      # an equal, fresh instance
+            (hx, vx), (hy, vy) = _h(x), _h(y)
+            ev['eq_after'] = _b(lambda: x == y)
+            ev['heq_after'] = 'na' if vx is None or vy is None else 'T' if vx == vy else 'F'
+        evs.append(ev)
         desc[ident] = (f'setattr {NAMES[fi]}', c)
         try:
             delattr(x, NAMES[fi])
